@@ -629,6 +629,7 @@ func genCases(args []string) {
 	shp := fs.String("shapes", "", "ndjson of TLC-enumerated tree shapes")
 	reps := fs.Int("reps", 2, "option sets per shape")
 	tier := fs.String("tier", "quick", "quick|thorough")
+	tbl := fs.String("tables", "", "ndjson of TLC-enumerated table shapes (rows x keys, present/absent)")
 	fs.Parse(args)
 	r := rand.New(rand.NewSource(seed()))
 	w := bufio.NewWriterSize(os.Stdout, 1<<20)
@@ -649,6 +650,14 @@ func genCases(args []string) {
 		w.Flush()
 	}()
 
+	// (0) TLC table shapes for the aligned layout of pretty: every shape under two key menus, Sort off and on
+	for i, tc := range tableCases(*tbl, quick) {
+		ok := 64 * (i & 1) // htmlunsafe alternates
+		if (i/2)&1 == 1 {
+			ok |= 8 // sort
+		}
+		emit(tc.tree, optsOf(ok), tc.p, "table")
+	}
 	// (1) TLC shapes x leaves x options: every shape meets every option bit in both polarities over the run
 	var shapes []shape
 	if *shp != "" {
@@ -836,4 +845,75 @@ func anyInts(v any) any {
 		return a
 	}
 	return v
+}
+
+// ---------------------------------------------------------------- table trees for the aligned layout (C04 and C10)
+// key menus by byte class: bare keys mixed with keys that need quotes in SEN (space, delimiter, digit-leading, escape),
+// reserved spellings, upper/lower case, bytes below '"' - the raw order and the encoded order differ in both directions
+var keyMenus = [][]string{
+	{"id", "user name", "a", "z z"}, {"a b", "id", "zz", "1st"}, {"B", "a", "true", "k:"}, {"name", "first name", "x", "q\"x"},
+	{"~", "a", "A b", "m,"}, {"a", "a b", "a!", "ab"}, {"é", "e f", "z", "Z"}, {"null", "n", "0", "[k]"},
+	{"b", "a", "d", "c"}, {"x y", "x", "x z", "w"},
+}
+
+type tableShape struct {
+	K    int      `json:"k"`
+	Rows [][]bool `json:"rows"`
+}
+
+type tableCase struct {
+	tree M
+	p    []pcfg
+}
+
+func tableCases(path string, quick bool) []tableCase {
+	if path == "" {
+		return nil
+	}
+	f, err := os.Open(path)
+	if err != nil {
+		panic(err)
+	}
+	var res []tableCase
+	cells := []M{aInt(1), aStr("x"), aInt(100), aStr("ann"), aInt(22), aBool(true), aStr("a b"), aFlt(0.5)}
+	i := 0
+	readLines(f, func(l []byte) {
+		var ts tableShape
+		if err := json.Unmarshal(l, &ts); err != nil {
+			panic(err)
+		}
+		i++
+		menus := 2
+		if !quick {
+			menus = 3
+		}
+		for m := 0; m < menus; m++ {
+			menu := keyMenus[(i+m*3+int(seed()))%len(keyMenus)]
+			rot := (i/3 + m) % 4
+			rows := make([]any, len(ts.Rows))
+			for ri, row := range ts.Rows {
+				kv := []any{}
+				for ki, present := range row {
+					if present {
+						kv = append(kv, menu[(ki+rot)%4], cells[(i+ri*3+ki+m)%len(cells)])
+					}
+				}
+				rows[ri] = aObj(kv...)
+			}
+			var t M = aArr(rows...)
+			if i%7 == 0 {
+				t = aObj("rows", t, "n", aInt(int64(len(rows))))
+			}
+			// widths at which the table layout is chosen (80, 200) and one at which it often is not (20)
+			ps := []pcfg{{W: 80, D: 3, Al: true}, {W: 200, D: 9, Al: true}}
+			if (i+m)%3 == 0 {
+				ps[1] = pcfg{W: 20, D: 3, Al: true}
+			}
+			if (i+m)%5 == 0 {
+				ps[0] = pcfg{W: 80, D: 2, Al: true}
+			}
+			res = append(res, tableCase{t, ps})
+		}
+	})
+	return res
 }
